@@ -45,7 +45,7 @@ Theorem C08_only_verified : forall c m, reachable c m ->
   forall b, (In b (cache (ms m)) \/ (exists pn, In (b, pn) (log m)) \/
              (exists id, In (id, b) (waiting m) \/ In (id, b) (ready m))) ->
   (bkd b = KPre /\ bnum b < first_block c /\ bgood b = true) \/
-  (bkd b = KFinal /\ lookup_epoch (bepoch b) (epochs c) = Some (bsched b) /\ bgood b = true).
+  (bkd b = KFinal /\ In (bepoch b, bsched b) (epochs c) /\ bgood b = true).
 Proof.
   intros c m H b Hb. apply verified_spec. pose proof (reachable_minv c m H) as I.
   destruct Hb as [Hb|[[pn Hb]|[id [Hb|Hb]]]].
